@@ -546,3 +546,62 @@ impl Prop for C07 {
         out
     }
 }
+
+/// Oracle for an arbitrary filter text (used by the fuzz target).
+pub fn check_raw(text: &[u8], buf: u8, fill: u8) -> Outcome {
+    let mut out = Outcome::default();
+    let view = match filter_view(text) {
+        Some(v) => v,
+        None => {
+            out.label("not-json-object");
+            return out;
+        }
+    };
+    let tag_parts: Vec<Vec<String>> = view
+        .tags
+        .iter()
+        .map(|(n, vs)| {
+            let mut t = vec![n.clone()];
+            t.extend(vs.iter().cloned());
+            t
+        })
+        .collect();
+    let tsize = tags_size(&tag_parts);
+    let must = view.must_accept && tsize <= 65535;
+    out.nontrivial = view.well_typed;
+    let needed = 32 + 32 * view.ids.len() + 32 * view.authors.len() + 2 * view.kinds.len() + tsize;
+    let buflen = match buf % 12 {
+        0 => needed,
+        b @ 1..=8 => needed + b as usize,
+        9 => needed + 4096,
+        _ => 70_000 + text.len(),
+    };
+    match pocket_parse_filter(text, buflen, fill) {
+        Ok(Ok(p)) => {
+            out.label("accepted");
+            if view.well_typed {
+                if let Some((k, d)) = compare_filter_view(&p, &view) {
+                    out.fail(format!("C07:{k}"), format!("{d}; text={}", String::from_utf8_lossy(text)));
+                    return out;
+                }
+            }
+            let strings_utf8 = p.tags.iter().flatten().all(|s| std::str::from_utf8(s).is_ok());
+            if strings_utf8 {
+                check_roundtrip(&p, &mut out, "parsed");
+            }
+        }
+        Ok(Err(e)) => {
+            if e.starts_with("INCONSISTENT") {
+                out.fail("C07:accessors-inconsistent", e);
+            } else if must {
+                out.fail(format!("C07:rejected:{e}"), format!("in-domain filter rejected: {e}; text={}", String::from_utf8_lossy(text)));
+            }
+        }
+        Err(f) => {
+            if must || view.int_out_of_range {
+                out.fail(format!("C07:{}", f.key), f.detail);
+            }
+        }
+    }
+    out
+}
